@@ -21,7 +21,7 @@ DRIVER = os.path.join(ROOT, 'lean', '.lake', 'build', 'bin', 'driver')
 
 # which properties get a scheduled stage, and how much:  (sgen cases quick, thorough), (sdfs sets quick, thorough)
 SCHED_PROPS = {
-    'C01': ((900, 9000), (18, 150)), 'C02': ((900, 9000), (12, 90)), 'C03': ((900, 9000), (18, 150)),
+    'C01': ((1800, 12000), (18, 150)), 'C02': ((900, 9000), (12, 90)), 'C03': ((900, 9000), (18, 150)),
     'C04': ((900, 9000), (18, 150)), 'C08': ((900, 9000), (12, 90)), 'C13': ((900, 9000), (12, 90)),
     'C14': ((900, 9000), (18, 150)), 'C07': ((450, 4500), (6, 45)), 'C05': ((300, 3000), (3, 30)),
     'C06': ((900, 9000), (18, 150)), 'C12': ((300, 3000), (3, 30)),
@@ -555,15 +555,23 @@ def run(pid, tier, seed, work):
             jobs.append((['sgen', '--seed', str(sd), '--cases', str(per), '--kind', k, '--threads', '0', '--stmts', '5',
                           '--profile', prof], f'sg_{k}'))
             if profile != 'cancel' and pid in ('C01', 'C02', 'C03', 'C14'):
-                jobs.append((['sgen', '--seed', str(sd + 7), '--cases', str(max(1, per // 2)), '--kind', k, '--threads', '0',
-                              '--stmts', '5', '--profile', 'cancel'], f'sgc_{k}'))
+                # abandoned acquisitions next to live ones: the deep mutual-exclusion failures need them (seeded C01_A/B)
+                for j in range(3 if pid == 'C01' else 1):
+                    jobs.append((['sgen', '--seed', str(sd + 7 + 13 * j), '--cases', str(max(1, per if pid == 'C01' else per // 2)),
+                                  '--kind', k, '--threads', '0', '--stmts', '5', '--profile', 'cancel'], f'sgc{j}_{k}'))
+    if ncases and pid == 'C01':
+        # a soft-limited locker scanning while other threads are between lookup and per-key lock (seeded C01_B)
+        for k in ('lru', 'hashmap'):
+            for j in range(2):
+                jobs.append((['sgen', '--seed', str(sd + 101 + 17 * j), '--cases', str(max(1, ncases // 3)), '--kind', k, '--threads', '0',
+                              '--stmts', '5', '--profile', 'limit'], f'sgl{j}_{k}'))
     if nsets:
         for k in kinds:
             jobs.append((['sdfs-gen', '--seed', str(sd + 1), '--count', str(max(1, nsets // len(kinds))), '--kind', k,
                           '--max-schedules', '400' if tier == 'quick' else '3000'], f'sd_{k}'))
     import concurrent.futures as cf
     results = []
-    with cf.ThreadPoolExecutor(max_workers=8) as ex:
+    with cf.ThreadPoolExecutor(max_workers=14) as ex:
         futs = [ex.submit(run_one, cmd, tag, work, 240 if tier == 'quick' else 1800) for cmd, tag in jobs]
         for f in futs:
             results.append(f.result())
